@@ -44,6 +44,18 @@ def exact_counts(psis_weights, N, rng=None, keep_zero=None):
                 continue
             p = 0.0
         out[key_of(idx, N)] = p
+    # the order in which a counts dictionary lists its outcomes carries no meaning: as enumerated here (qubit N-1 fastest, i.e.
+    # bit-reversed), ascending, descending, or shuffled
+    if rng is not None:
+        order = rng.randrange(4)
+        keys = list(out)
+        if order == 1:
+            keys.sort()
+        elif order == 2:
+            keys.sort(reverse=True)
+        elif order == 3:
+            rng.shuffle(keys)
+        out = {k: out[k] for k in keys}
     return out
 
 
